@@ -3,58 +3,44 @@ import MythVerif.Proofs.WsQueueTsoTac
 namespace MythVerif.WsqTso
 open MythVerif.Wsq
 
-set_option maxHeartbeats 4000000 in
 theorem t_vq0 (s s' : St) (p : Pid) : Inv s → s.tpc p = .vq0 → stepT s p = some s' → Inv s' := by
   intro h heq hs
   have hb := h.tbufE p (by simp [heq, mayBuf])
-  cases h
   simp only [stepT, heq, hb, viewTop_nil] at hs
   simp at hs; subst hs
-  simp only [ownerLocked, carry, resetting, ownerFlight] at *
-  tso_finish
+  tso_fastT h p []
 
-set_option maxHeartbeats 4000000 in
 theorem t_vq1 (s s' : St) (p : Pid) (t) : Inv s → s.tpc p = .vq1 t → stepT s p = some s' → Inv s' := by
   intro h heq hs
   have hb := h.tbufE p (by simp [heq, mayBuf])
-  cases h
   simp only [stepT, heq, hb, viewBase_nil] at hs
   split at hs
   all_goals (simp at hs; subst hs)
-  all_goals simp only [ownerLocked, carry, resetting, ownerFlight] at *
-  all_goals tso_finish
+  all_goals tso_fastT h p []
 
-set_option maxHeartbeats 4000000 in
 theorem t_vc0 (s s' : St) (p : Pid) : Inv s → s.tpc p = .vc0 → stepT s p = some s' → Inv s' := by
   intro h heq hs
   have hb := h.tbufE p (by simp [heq, mayBuf])
-  cases h
   simp only [stepT, heq, hb] at hs
   split at hs
   all_goals (simp at hs; subst hs)
-  all_goals simp only [ownerLocked, carry, resetting, ownerFlight] at *
-  all_goals tso_finish
+  all_goals tso_fastT h p []
 
-set_option maxHeartbeats 4000000 in
 theorem t_vl (s s' : St) (p : Pid) : Inv s → s.tpc p = .vl → stepT s p = some s' → Inv s' := by
   intro h heq hs
   have hb := h.tbufE p (by simp [heq, mayBuf])
   simp only [stepT, heq, hb] at hs
   simp at hs
   split at hs
-  all_goals (simp at hs; subst hs; cases h)
-  all_goals simp only [ownerLocked, carry, resetting, ownerFlight] at *
-  all_goals tso_finish
+  all_goals (simp at hs; subst hs)
+  all_goals tso_fastT h p []
 
-set_option maxHeartbeats 4000000 in
 theorem t_vc1 (s s' : St) (p : Pid) : Inv s → s.tpc p = .vc1 → stepT s p = some s' → Inv s' := by
   intro h heq hs
   have hb := h.tbufE p (by simp [heq, mayBuf])
-  cases h
   simp only [stepT, heq, hb] at hs
   split at hs
   all_goals (simp at hs; subst hs)
-  all_goals simp only [ownerLocked, carry, resetting, ownerFlight] at *
-  all_goals tso_finish
+  all_goals tso_fastT h p []
 
 end MythVerif.WsqTso
